@@ -5,6 +5,7 @@ spans: outside quoted string literals out == src byte for byte, inside each quot
 spelling denotes the same byte string; nothing dropped, nothing duplicated.
 """
 from lib import reflex
+from lib import core
 from lib.core import ShardResult
 
 LEVEL = 'exploration'
@@ -39,7 +40,7 @@ def lua_mod():
 
 def echo(chunks):
     lua = lua_mod()
-    obj = lua.Lua.from_lines(chunks, version=8)
+    obj = lua.Lua.from_lines(chunks, version=core.lua_version(chunks))
     return b''.join(obj.to_lines())
 
 
@@ -241,6 +242,14 @@ MISC = [b'', b'\n', b'x=1', b'x=1\n', b'x=1\r\n', b'  x = 1  ', b'\t\n\n', b'-- 
         b'f"s" g[[l]] h{1}', b'a.b:c(...)', b'x=@y+%z+$w', b'\x80\x81=\x82']
 
 
+# string literals for the ordered-pair families (same value under both quote kinds, values holding quote characters,
+# \\z, numeric escapes, long brackets, control and high bytes)
+STRING_LITS = [b'"a"', b"'a'", b'" b"', b"' b'", b'"a\\z  "', b"'\\z'", b'"\\z\n  c"', b'"\\x41"', b'"\\0"', b'"\\0001"',
+               b'"don\'t"', b"'don\\'t'", b'"\\""', b"'\"'", b'[[a]]', b'[[ b]]', b'[=[]]]=]', b'"\\\n d"', b'""', b"''",
+               b'"\x0e1"', b'"\xff"', b"'say \"hi\"'", b'"say \\"hi\\""', b'[[say "hi"]]', b'[[don\'t]]', b"'\\''", b'"\'"',
+               b'"\\\\"', b"'\\\\'", b'"\\n"', b"'\\n'", b'[[\n]]', b'[[\n\n]]']
+
+
 def run_shard(item):
     res = ShardResult()
     kind = item[0]
@@ -284,9 +293,7 @@ def run_shard(item):
                 if probs:
                     report(s2, probs, res, 'misc', 'misc%d' % MISC.index(src))
     elif kind == 'twostrings':
-        lits = [b'"a"', b"'a'", b'" b"', b"' b'", b'"a\\z  "', b"'\\z'", b'"\\z\n  c"', b'"\\x41"', b'"\\0"', b'"\\0001"',
-                b'"don\'t"', b"'don\\'t'", b'"\\""', b"'\"'", b'[[a]]', b'[[ b]]', b'[=[]]]=]', b'"\\\n d"', b'""', b"''",
-                b'"\x0e1"', b'"\xff"']
+        lits = STRING_LITS
         for a in lits:
             for b in lits:
                 for sep in (b' y=', b'\ny=', b',') :
